@@ -86,22 +86,29 @@ for assign in combos:
             one(assign, out_kind, out_ext)
         except Exception as e:
             if len(bad) < 8: bad.append([json.dumps(assign), out_kind + out_ext, 'raised %s: %s' % (type(e).__name__, e)])
-# failing argument sets leave OUT untouched
-for desc, mut in (('both --gfx and --empty-gfx', lambda a: setattr(a, 'empty_gfx', True)),
-                  ('missing source file', lambda a: setattr(a, 'gfx', os.path.join(work, 'nope.p8'))),
-                  ('wrong extension', lambda a: setattr(a, 'gfx', os.path.join(work, 'main.lua')))):
-    for exists in (False, True):
-        n += 1
-        out = os.path.join(work, 'err%d.p8' % n)
-        before = None
-        if exists:
-            pfile.to_file(rand_game('prev'), out); before = open(out, 'rb').read()
-        a = mkargs(out, {'gfx': 'p8', 'sfx': 'png'}); mut(a)
-        try: rc = build.do_build(a)
-        except Exception as e: rc = 'exc'
-        after = open(out, 'rb').read() if os.path.exists(out) else None
-        if rc == 0 or after != before:
-            bad.append([desc, 'exists=%s' % exists, 'rc=%r, OUT %s' % (rc, 'changed' if after != before else 'unchanged')])
+# failing argument sets leave OUT untouched: the unusable argument on each section in turn, alone and together with a good source on
+# an earlier / a later section
+open(os.path.join(work, 'notes.txt'), 'wb').write(b'not a cart\n')
+for bi, bsec in enumerate(SECS):
+    for desc, mut in (('both --%s and --empty-%s' % (bsec, bsec), lambda a: setattr(a, 'empty_' + bsec, True)),
+                      ('missing source file for --%s' % bsec, lambda a: setattr(a, bsec, os.path.join(work, 'nope.p8'))),
+                      ('wrong extension for --%s' % bsec, lambda a: setattr(a, bsec, os.path.join(work, 'notes.txt')))):
+        others = [{}] + ([{SECS[bi - 1]: 'p8'}] if bi > 0 else []) + ([{SECS[bi + 1]: 'png'}] if bi + 1 < len(SECS) else []) + \
+                 ([{SECS[0]: 'png', SECS[-1]: 'p8'}] if 0 < bi < len(SECS) - 1 else [])
+        for other in others:
+            for exists in (False, True):
+                n += 1
+                out = os.path.join(work, 'err%d.p8' % n)
+                before = None
+                if exists:
+                    pfile.to_file(rand_game('prev'), out); before = open(out, 'rb').read()
+                assign = dict(other); assign[bsec] = 'p8'
+                a = mkargs(out, assign); mut(a)
+                try: rc = build.do_build(a)
+                except Exception as e: rc = 'exc'
+                after = open(out, 'rb').read() if os.path.exists(out) else None
+                if rc == 0 or after != before:
+                    if len(bad) < 8: bad.append([desc + ' with ' + json.dumps(other), 'exists=%s' % exists, 'rc=%r, OUT %s' % (rc, 'changed' if after != before else 'unchanged')])
 shutil.rmtree(work, ignore_errors=True)
 print(json.dumps({'n': n, 'bad': bad[:8]}))
 '''
